@@ -138,7 +138,9 @@ def run_check(pid, tier, seed, wall_cap=None, out_evidence=True, verbose=True):
         futs = set()
         while pending or futs:
             while pending and len(futs) < NPROC * 2:
-                t = pending.pop()
+                # fair share: prefer the query with the fewest tasks in flight (keeps every query progressing)
+                bi = min(range(max(0, len(pending) - 64), len(pending)), key=lambda i: (aggs[pending[i][0]].outstanding, -i))
+                t = pending.pop(bi)
                 a = aggs[t[0]]
                 if a.error or a.inconclusive:
                     continue
@@ -276,6 +278,7 @@ def run_check(pid, tier, seed, wall_cap=None, out_evidence=True, verbose=True):
                 "solver_checks": tot.get("solver_checks", 0),
                 "solver_s": round(tot.get("solver_s", 0.0), 2),
                 "solver_unknown": tot.get("unknown", 0),
+                "solver_fallback_checks": tot.get("fallback_checks", 0),
                 "paths_pruned_by_assumption": sum(a.pruned for a in aggs),
                 "concretisations": tot.get("concretisations", 0),
                 "clauses": sorted({c for a in aggs for c in a.reached}),
